@@ -29,7 +29,7 @@ PAREN_END_RE = re.compile(r"\s*\)")
 HTML_TAGNAME = r"[A-Za-z][A-Za-z0-9-]*"
 HTML_ATTRIBUTES = (
     r"(?:\s+[A-Za-z_:][A-Za-z0-9_.:-]*"
-    r'(?:\s*=\s*(?:[^ !"\'=<>`]+|\'[^\']*?\'|"[^\"]*?"))?)*'
+    r'(?:\s*=\s*(?:[^\s!"\'=<>`]+|\'[^\']*?\'|"[^\"]*?"))?)*'
 )
 
 BLOCK_TAGS = (
